@@ -15,6 +15,7 @@
 (*   "nbp" a n        [ nonbond_params ] + line for pair a, variant n      *)
 (*   "btype" a n      [ bondtypes ] + line for pair a, variant n           *)
 (*   "mol" a n        a whole [ moleculetype ] a with content variant n    *)
+(*                    (rendered: a chain of n atoms = n residues, n-1 bonds)*)
 (*   "mols" a n       [ molecules ] + line "a n"                           *)
 (*                                                                         *)
 (* P-layer (what a user relies on): PRead = ReadFlat(Preprocess): first the*)
@@ -35,7 +36,9 @@ CONSTANTS FsOf(_),        \* input handle -> file system (function path -> Seq(l
           DevF3,          \* repaired finding F3: conditionals not tracked once a moleculetype was seen in the file
           DevMolsPerFile, \* repaired finding F16: [molecules] entries instantiated per file at its end, numbered from 0 per file
           DevDirKeep,     \* wrong design: a nested include keeps the directory of its includer
-          DevElseKeep     \* wrong design: #else does not invert the condition
+          DevElseKeep,    \* wrong design: #else does not invert the condition
+          DevRootFirst,   \* wrong design (seed-C08-1): an include is looked up next to the top-level file first, then next to the includer
+          DevEdgesNewOnly \* wrong design (seed-C08-2): edges are only made for molecule types whose name is new in this file
 
 VARIABLES inp,    \* input handle (constant along a behaviour)
           stack,  \* Seq(director)
@@ -49,8 +52,10 @@ NoCond == <<"", "">>
 EmptyF == [x \in {} |-> 0]
 Put(f, key, v) == (key :> v) @@ f
 
+\* edged[name]: the molecule type carries the edges of its content (atom graph connected as its bonds say);
+\* medged[i]: instance i carries them too (residue graph and atom graph)
 R0 == [abort |-> "", defs |-> EmptyF, defaults |-> 0, atypes |-> EmptyF, nbp |-> EmptyF, types |-> <<>>,
-       blocks |-> EmptyF, molecules |-> <<>>, idx |-> EmptyF]
+       blocks |-> EmptyF, edged |-> EmptyF, molecules |-> <<>>, medged |-> <<>>, idx |-> EmptyF]
 Aborted(kind) == [R0 EXCEPT !.abort = kind]
 
 (* ---- paths *)
@@ -147,7 +152,9 @@ ReadFlat(flat) ==
            nbp |-> Table(flat, "nbp"),
            types |-> [i \in 1..Len(bt) |-> <<bt[i].a, bt[i].n>>],
            blocks |-> blocks,
+           edged |-> [nm \in DOMAIN blocks |-> TRUE],        \* every molecule type has the edges of its content,
            molecules |-> molseq,
+           medged |-> [i \in 1..Len(molseq) |-> TRUE],      \* and so has every instance, however often the type was (re)read
            idx |-> IdxOf(molseq, 0)]
 
 PRead(fs, main) == ReadFlat(Flat(fs, main))
@@ -192,12 +199,16 @@ Endif == HasLine /\ Cur.k = "endif" /\
          ELSE IF Top.meta = NoCond THEN Fail("struct")
          ELSE Step([Top EXCEPT !.meta = NoCond], res, pend)
 
+\* os.path.join(cwdir, path), not normalised; the only candidate is the directory of the including file
+RootDir == Dir(MainOf(inp))
 Include == HasLine /\ Cur.k = "incl" /\
            IF Skips(Top.meta, res.defs) THEN Step(Top, res, pend)
-           ELSE LET fn == Top.dir \o Cur.p IN      \* os.path.join(cwdir, path), not normalised
-                IF Norm(fn) \notin DOMAIN FS \/ Len(stack) > Fuel THEN Fail("missing")
-                ELSE /\ stack' = Append(SetTop(Adv(Top)), Director(Norm(fn), IF DevDirKeep THEN Top.dir ELSE Dir(fn)))
-                     /\ UNCHANGED <<inp, res, pend, done>>
+           ELSE LET cands == IF DevRootFirst THEN <<RootDir \o Cur.p, Top.dir \o Cur.p>> ELSE <<Top.dir \o Cur.p>>
+                    found == SelectSeq(cands, LAMBDA f : Norm(f) \in DOMAIN FS)
+                IN IF found = <<>> \/ Len(stack) > Fuel THEN Fail("missing")
+                   ELSE LET fn == found[1] IN
+                        /\ stack' = Append(SetTop(Adv(Top)), Director(Norm(fn), IF DevDirKeep THEN Top.dir ELSE Dir(fn)))
+                        /\ UNCHANGED <<inp, res, pend, done>>
 
 Error == HasLine /\ Cur.k = "err" /\
          IF Skips(Top.meta, res.defs) THEN Step(Top, res, pend) ELSE Fail("error")
@@ -219,12 +230,18 @@ Molecules == HasLine /\ Cur.k = "mols" /\
 Finalize == /\ ~done /\ Len(stack) > 0 /\ Top.cur.k = "eof"
             /\ IF Top.meta # NoCond THEN Fail("struct")
                ELSE LET blocks2 == FoldLeft(LAMBDA acc, l : Put(acc, l.a, l.n), res.blocks, Top.itps)
+                        \* read_itp stores a fresh block without edges (a one-atom type has none to lose) ...
+                        raw     == FoldLeft(LAMBDA acc, l : Put(acc, l.a, l.n <= 1), res.edged, Top.itps)
+                        \* ... and _make_edges then goes over all blocks of the force field
+                        edged2  == [nm \in DOMAIN blocks2 |->
+                                      IF DevEdgesNewOnly THEN raw[nm] \/ nm \notin DOMAIN res.blocks ELSE TRUE]
                         root    == Len(stack) = 1
                         entries == IF DevMolsPerFile THEN Top.molecules ELSE IF root THEN pend ELSE <<>>
                         new     == Inst(entries)
                         base    == IF DevMolsPerFile THEN 0 ELSE Len(res.molecules)
                     IN IF \E i \in 1..Len(entries) : entries[i].a \notin DOMAIN blocks2 THEN Fail("nomol")
-                       ELSE /\ res' = [res EXCEPT !.blocks = blocks2, !.molecules = @ \o new,
+                       ELSE /\ res' = [res EXCEPT !.blocks = blocks2, !.edged = edged2, !.molecules = @ \o new,
+                                                  !.medged = @ \o [i \in 1..Len(new) |-> edged2[new[i]]],
                                                   !.idx = MergeIdx(@, IdxOf(new, base))]
                             /\ stack' = SubSeq(stack, 1, Len(stack) - 1)
                             /\ done' = root
